@@ -3,12 +3,14 @@
 package main
 
 import (
+	"bytes"
 	"fmt"
 	"io/fs"
 	"path"
 	"sort"
 	"strings"
 
+	"github.com/wader/fq/internal/colorjson"
 	"github.com/wader/fq/internal/verifharness/hlib"
 	"github.com/wader/fq/pkg/interp"
 	"github.com/wader/gojq"
@@ -281,6 +283,7 @@ func emitFacts(o *hlib.Out) {
 	}
 	sort.Strings(coll)
 	o.Case("gofn", "["+strings.Join(coll, ",")+"]")
+	emitEncoderFacts(o)
 	o.Stat("fq_definitions", len(all))
 	o.Stat("go_functions", len(interp.DefaultRegistry.EnvFuncFns))
 }
@@ -292,4 +295,131 @@ func hasDef(all []fdef, name string, arity int) bool {
 		}
 	}
 	return false
+}
+
+// ---------------------------------------------------------------- the two JSON encoders, code point by code point
+
+func fqEncodeString(s string) string {
+	var bb bytes.Buffer
+	e := colorjson.NewEncoder(colorjson.Options{Colors: colorjson.Colors{}})
+	if err := e.Marshal(s, &bb); err != nil {
+		return "<error " + err.Error() + ">"
+	}
+	return bb.String()
+}
+
+func gojqEncodeString(s string) string {
+	b, err := gojq.Marshal(s)
+	if err != nil {
+		return "<error " + err.Error() + ">"
+	}
+	return string(b)
+}
+
+func body(quoted string) string {
+	if len(quoted) >= 2 && quoted[0] == '"' && quoted[len(quoted)-1] == '"' {
+		return quoted[1 : len(quoted)-1]
+	}
+	return "<unquoted " + quoted + ">"
+}
+
+// escKinds: run-length encoded "what does the encoder write for the one-code-point string" over EVERY code
+// point (surrogates excluded: they cannot occur in a valid Go string), then what it writes for invalid bytes.
+func escKinds(enc func(string) string) string {
+	var sb strings.Builder
+	start, cur := 0, ""
+	flush := func(end int) {
+		if cur == "" {
+			return
+		}
+		if sb.Len() > 0 {
+			sb.WriteByte(',')
+		}
+		if start == end {
+			fmt.Fprintf(&sb, "%x:%s", start, cur)
+		} else {
+			fmt.Fprintf(&sb, "%x-%x:%s", start, end, cur)
+		}
+	}
+	prev := -1
+	for c := 0; c <= 0x10ffff; c++ {
+		if c >= 0xd800 && c <= 0xdfff {
+			continue
+		}
+		s := string(rune(c))
+		out := body(enc(s))
+		var k string
+		switch {
+		case out == s:
+			k = "raw"
+		case out == fmt.Sprintf(`\u%04x`, c):
+			k = "u4"
+		case len(out) == 2 && out[0] == '\\':
+			k = "s" + out[1:]
+		default:
+			k = "other(" + out + ")"
+		}
+		if k != cur || (prev >= 0 && c != prev+1) {
+			flush(prev)
+			start, cur = c, k
+		}
+		prev = c
+	}
+	flush(prev)
+	// invalid UTF-8: every byte of an invalid sequence becomes the text \ufffd
+	bad := "ufffd"
+	var seqs []string
+	for b := 0x80; b <= 0xff; b++ {
+		seqs = append(seqs, string([]byte{byte(b)}))
+	}
+	seqs = append(seqs, "\xe2\x80", "\xc0\x80", "\xed\xa0\x80", "\xf4\x90\x80\x80", "\xf0\x9f\x98", "a\xffb")
+	for _, q := range seqs {
+		want := ""
+		for i := 0; i < len(q); i++ {
+			if q[i] < 0x80 {
+				want += string(q[i])
+			} else {
+				want += `\ufffd`
+			}
+		}
+		if got := body(enc(q)); got != want {
+			bad = fmt.Sprintf("other(%x->%s)", q, got)
+			break
+		}
+	}
+	return sb.String() + ";bad:" + bad
+}
+
+func emitEncoderFacts(o *hlib.Out) {
+	o.Case("esc fq", escKinds(fqEncodeString))
+	o.Case("esc gojq", escKinds(gojqEncodeString))
+	// context: all ordered pairs of a unit set — same text in both encoders, and compositional
+	var units []string
+	for b := 0; b < 128; b++ {
+		units = append(units, string(rune(b)))
+	}
+	for _, c := range []rune{0x80, 0x85, 0xa0, 0xff, 0x2027, 0x2028, 0x2029, 0x202a, 0xfeff, 0xfffd, 0xfffe, 0xffff, 0xd7ff, 0xe000, 0x10000, 0x1f600, 0x10ffff} {
+		units = append(units, string(c))
+	}
+	units = append(units, "\xff", "\xc3", "\xe2\x80", "\xed\xa0\x80")
+	n := 0
+	res := ""
+	for _, a := range units {
+		fa := body(fqEncodeString(a))
+		for _, b := range units {
+			n++
+			f, g := fqEncodeString(a+b), gojqEncodeString(a+b)
+			if res == "" && f != g {
+				res = fmt.Sprintf("differs on %q: fq %s gojq %s", a+b, f, g)
+			}
+			if res == "" && body(f) != fa+body(fqEncodeString(b)) && !(a[len(a)-1] >= 0x80 && b[0] >= 0x80) {
+				res = fmt.Sprintf("not compositional on %q + %q", a, b)
+			}
+		}
+	}
+	if res == "" {
+		res = fmt.Sprintf("ok %d", n)
+	}
+	o.Case("escpairs", res)
+	o.Stat("exhaustive_small_domain", 1)
 }
